@@ -4,9 +4,23 @@ use crate::{
     error::{assert_finite, assert_finite_operands, assert_limited_precision, panic_power_negative_base},
     fbig::FBig,
     repr::{Context, Repr, Word},
-    round::{Round, Rounded},
+    round::{Round, Rounded, Rounding},
 };
 use dashu_base::{AbsOrd, Approximation::*, BitTest, DivRemEuclid, EstimatedLog2, Sign};
+
+/// Mark a result as inexact.
+///
+/// The intermediate steps of the transcendental functions are carried out with plain [FBig]
+/// arithmetic, which does not report inexactness; only the final rounding does. The value of `exp`
+/// and `ln` at a non-trivial argument is never exactly representable, so a final rounding that
+/// happened to be exact must not be reported as an exact result.
+#[inline]
+pub(crate) fn mark_inexact<T>(res: Rounded<T>) -> Rounded<T> {
+    match res {
+        Exact(v) => Inexact(v, Rounding::NoOp),
+        r => r,
+    }
+}
 use dashu_int::IBig;
 
 impl<R: Round, const B: Word> FBig<R, B> {
@@ -111,9 +125,12 @@ impl<R: Round> Context<R> {
 
             let guard_bits = self.precision.bit_len() * 2; // heuristic
             let rev_context = Context::<R::Reverse>::new(self.precision + guard_bits);
-            let pow = rev_context.powi(base, exp.into()).value();
-            let inv = rev_context.repr_div(Repr::one(), pow.repr);
+            let pow = rev_context.powi(base, exp.into());
+            let pow_inexact = matches!(pow, Inexact(_, _));
+            let inv = rev_context.repr_div(Repr::one(), pow.value().repr);
             let repr = inv.and_then(|v| self.repr_round(v));
+            // the reciprocal of an inexact power is not exact, even if the division is
+            let repr = if pow_inexact { mark_inexact(repr) } else { repr };
             return repr.map(|v| FBig::new(v, *self));
         }
         if exp.is_zero() {
@@ -337,7 +354,8 @@ impl<R: Round> Context<R> {
             k += 1;
         }
 
-        if no_scaling {
+        // x is not zero here, so the result is irrational
+        mark_inexact(if no_scaling {
             sum.with_precision(self.precision)
         } else if minus_one {
             // add extra digits to compensate for the subtraction
@@ -348,6 +366,6 @@ impl<R: Round> Context<R> {
         } else {
             self.powi(sum.repr(), Repr::<B>::BASE.pow(n).into())
                 .map(|v| v << s)
-        }
+        })
     }
 }
